@@ -1,0 +1,16 @@
+//go:build verif
+
+package genlsp
+
+// Verification-only export (build tag "verif"): runs the LSP document
+// formatter (astFormatter.Format) on a text. Adds no behaviour.
+
+import (
+	"context"
+
+	"go.lsp.dev/protocol"
+)
+
+func VerifFormat(ctx context.Context, text string) ([]protocol.TextEdit, error) {
+	return astFormatter{}.Format(ctx, &protocol.TextDocumentItem{Text: text})
+}
